@@ -1,10 +1,12 @@
 CFG = {
     "gen": [],
-    "props": ["EraVerif.Props.C01", "EraVerif.Props.C02d", "EraVerif.Props.C01r"],
+    "props": ["EraVerif.Props.C01", "EraVerif.Props.C02d", "EraVerif.Props.C01r", "EraVerif.Props.Epoch"],
     "required_theorems": ["agreement", "agreement_over_time", "cert_stable", "certified_numbers_monotone",
                           "implied_refines", "highVote_spec", "highQC_spec", "implied_block_safe",
                           "simulation", "global_reach_refines", "code_level_agreement", "code_level_agreement_over_time",
-                          "committed_blocks_agree", "emitted_block_certified"],
+                          "committed_blocks_agree", "emitted_block_certified",
+                          "verify_payload_within_epoch", "epochs_disjoint_votes", "epochs_disjoint_votes_two_nodes",
+                          "runner_maps_disjoint", "queue_block_checks_claimed_epoch_only"],
     "technique": "Lean 4 inductive invariant (Lamport-style choosable values, weights, FaB thresholds) over a protocol-level "
                  "transition system, kernel-checked; refinement of the code-level implied-block function to the relational rule "
                  "the proof consumes; multi-replica simulation of real replicas with a Byzantine actor, every step compared with "
@@ -22,7 +24,21 @@ CFG = {
                   "validators played by the harness (equivocating proposals, conflicting or withheld votes, lying timeout votes "
                   "carrying any certificate seen, stale new-views, garbage), an adversarial scheduler (loss, duplication, "
                   "reordering, partitions, restarts, block sync); after every step the stores of all correct nodes are compared "
-                  "(same payload per number, never replaced) and every replica step is compared with the Layer-I model.",
+                  "(same payload per number, never replaced) and every replica step is compared with the Layer-I model. "
+                  "Epoch boundary (component `epoch`, Props/Epoch + harness cepoch): the one-epoch proof is carried across a "
+                  "validator-schedule rotation by the epoch guard of EngineManager::verify_payload — modelled: the schedule map "
+                  "(insert / expiration / pruning by the runner's schedule task, provider answers as events), epoch_for_block, the "
+                  "guard, and which epoch's committee queue_block verifies a block against; proved for every map / number / event "
+                  "list: guard ok => activation(e) <= n <= expiration(e) (when known); on disjoint ranges at most one epoch passes "
+                  "the guard for a number and each epoch exactly for its own range; every map the schedule task builds from "
+                  "forward-looking answers has disjoint ranges and the task does not panic; two nodes with different views of one "
+                  "activation table never let two epochs vote on one number provided a node that does not know its expiration yet "
+                  "is not past it (counterexample without: a node that has not polled). Tied to the code on every run: the real "
+                  "EngineManager + runner over a storage stub with a dynamic schedule (manual clock), verify_payload on the grid "
+                  "activation-2..activation+1 x known/unknown/pending/pruned epochs, queue_block with the right / neighbouring / "
+                  "wrong committee, and a real replica of the ending epoch that must answer InvalidPayload to the old leader's "
+                  "proposal for expiration+1 (if it votes, the old committee's block and the new committee's block for that number "
+                  "are stored by two real nodes and compared).",
     "level_note": "The refinement Layer I -> Layer P is one kernel-checked theorem (Props/C01r `simulation`, `global_reach_refines`): "
                   "in the global code-level system (every correct validator runs the replica model with crash after any effect prefix "
                   "and restart; any AUTHENTIC message may be delivered: a correct validator's signature exists only on what it sent, "
@@ -33,10 +49,16 @@ CFG = {
                   "states (a vote made durable but overwritten before being sent must stay recorded; witness "
                   "`literal_abstraction_fails`). Side conditions: 1 <= total weight, Byzantine weight <= f, no u64 wrap of view/block "
                   "numbers in delivered proposals/votes. One epoch, fixed committee; hash collisions and signature forgery excluded; "
-                  "the execution layer's verify_payload is an environment answer; the tie model <-> Rust is the differential run.",
-    "harness": "c01",
+                  "the execution layer's verify_payload is an environment answer; the tie model <-> Rust is the differential run. "
+                  "Across epochs: NOT modelled are the executor's spawning of per-epoch components and the schedule provider (its "
+                  "answers are inputs; assumed to agree with one strictly increasing activation table and to announce a schedule "
+                  "before it activates); assumed: every correct member of the old committee learns its expiration "
+                  "(fetch_schedule_interval) before it is asked to vote beyond it; queue_block does not check that a block's number "
+                  "lies in the epoch it names (relies on the vote guard and <= f faulty members of the old committee).",
+    "harness": ["c01", "cepoch"],
+    "scope": {"cepoch": {"oracle_only": "^(verify:|vote:|qblock:|disagreement:)", "ignore_k": False}},
     "replay_by_seed": True,
-    "n": {"quick": 6000, "thorough": 84000},
+    "n": {"quick": [6000, 3000], "thorough": [84000, 60000]},
     "rule": "N/2000 simulations (at least 2) of 2000 scheduler steps each over committees of 4 (f=0), 6, 6 with a double weight, 7, 9 "
             "(mixed weights) or 11 validators with a random Byzantine subset of weight <= f; every third case uses a leader schedule "
             "other than round-robin over everybody (eligible subset, rotation period 1-3, weighted mode; the real view_leader is "
@@ -45,10 +67,17 @@ CFG = {
             "each; a step delivers a pending packet (75% among the 3n most recent, 10% duplicated), or fires a timer / proposer / "
             "Byzantine action / restart / partition toggle / block sync. Evidence histograms prefix_max_committed_blocks / "
             "prefix_max_view say how far cases got (a case that never leaves view 0 tests nothing). Each real replica step is one "
-            "op. non-trivial = distinct op whose outcome class differs from the modal class",
+            "op. non-trivial = distinct op whose outcome class differs from the modal class. "
+            "(second harness cepoch, scoped to the monitors verify:* / vote:* / qblock:* / disagreement:* — K counts in full: cases "
+            "of 2-4 epochs of 2-4 blocks, committees of 6 out of 8 keys differing per epoch, schedules announced 1..len blocks "
+            "ahead; families mgr (manager + schedule task: polls, side-channel jumps, restart), rep (stepped replica at the end of "
+            "its epoch, informed or not, then a second node of the next epoch), run (Config::run of two epochs around the boundary))",
     "trusted": ["Layer-P transition system (hand transcription of the protocol's guards)", "symbolic cryptography",
                 "hand-written replica model; harness stores and scheduler"],
-    "assumptions": ["weight of Byzantine validators <= f", "signatures unforgeable, hashes collision-free", "fixed committee (one epoch)"],
+    "assumptions": ["weight of Byzantine validators <= f (per epoch committee)", "signatures unforgeable, hashes collision-free",
+                    "fixed committee within an epoch; across epochs: the schedule provider answers from one strictly increasing "
+                    "activation table, announces a schedule before it activates, and every correct validator polls it before its "
+                    "epoch's expiration block is finalized"],
     "explanation": "agreement theorem on Layer P + correspondence of every real replica step in adversarial multi-replica runs + "
                    "agreement / append-only monitors on the real stores",
 }
